@@ -365,6 +365,20 @@ func genCacheCase(t *rapid.T) (*CacheCase, []string) {
 			}
 		}
 	}
+	if rapid.IntRange(0, 2).Draw(t, "intropool") == 0 {
+		names := []string{"Query", "String", "NoSuchType"}
+		for n := range union.Types {
+			if !strings.HasPrefix(n, "__") && len(names) < 6 {
+				names = append(names, n)
+			}
+		}
+		sortStrings(names)
+		q := "query($n: String!, $d: Boolean = false) { __type(name: $n) { name kind fields(includeDeprecated: $d) { name } } }"
+		for i := 0; i < 3; i++ {
+			c.Pool = append(c.Pool, gwx.GQLRequest{Query: q, Variables: map[string]interface{}{"n": names[rapid.IntRange(0, len(names)-1).Draw(t, "iname")], "d": rapid.Bool().Draw(t, "idep")}})
+		}
+		labels = append(labels, "collision:introspectionVariables")
+	}
 	if twin {
 		labels = append(labels, "twinRootField")
 	}
